@@ -64,6 +64,12 @@ End == /\ IsEvent("endcase")
                   /\ PrintT(<<"BAD", ToJson([l |-> l, case |-> Rec[l].case, prop |-> "C19", diag |-> "C19/UnderivableTraitDerived",
                             fam |-> cur.fam, id |-> cur.id, mode |-> cur.mode, sidx |-> cur.sidx, ty |-> "", known |-> {},
                             codes |-> codes])>>)
+             ELSE IF C19_DeriveBad(items) # {}
+             THEN /\ nbad' = nbad + 1
+                  /\ PrintT(<<"BAD", ToJson([l |-> l, case |-> Rec[l].case, prop |-> "C19", diag |-> "C19/TraitDerivedTwice",
+                            fam |-> cur.fam, id |-> cur.id, mode |-> cur.mode, sidx |-> cur.sidx,
+                            ty |-> items[CHOOSE i \in C19_DeriveBad(items) : TRUE].name, known |-> {},
+                            codes |-> codes])>>)
              ELSE nbad' = nbad
           ELSE LET b17 == C17_Bad(rows, items, decl, failed, TypeMod)
                    b19 == C19_Bad(items, decl, failed)
